@@ -27,7 +27,87 @@ type shapeCase struct {
 	Note   string `json:"note,omitempty"`
 }
 
+// wideGeoms: collections with many direct members (33, 64, 65, 500: beyond any small constant a
+// parser might confuse with a depth or a buffer size), with an empty member in the middle, and a
+// collection whose later member is itself wide. Index-addressed for replay.
+func wideGeoms(ct geom.CoordinatesType) []geom.Geometry {
+	pt := func(i int) geom.Point {
+		c := geom.Coordinates{XY: geom.XY{X: float64(i%17) + 0.5, Y: float64(i/17) - 0.25}, Z: float64(1000 + i), M: float64(2000 + i), Type: ct}
+		return geom.NewPoint(c)
+	}
+	line := func(i int) geom.LineString {
+		a, b := pt(i).Coordinates, pt(i+1).Coordinates
+		ca, _ := a()
+		cb, _ := b()
+		var fl []float64
+		for _, c := range []geom.Coordinates{ca, cb} {
+			fl = append(fl, c.X, c.Y)
+			if ct.Is3D() {
+				fl = append(fl, c.Z)
+			}
+			if ct.IsMeasured() {
+				fl = append(fl, c.M)
+			}
+		}
+		return geom.NewLineString(geom.NewSequence(fl, ct))
+	}
+	sq := func(i int) geom.Polygon {
+		x, y := float64(3*(i%20)), float64(3*(i/20))
+		var fl []float64
+		for k, c := range [][2]float64{{x, y}, {x + 1, y}, {x + 1, y + 1}, {x, y + 1}, {x, y}} {
+			fl = append(fl, c[0], c[1])
+			if ct.Is3D() {
+				fl = append(fl, float64(k))
+			}
+			if ct.IsMeasured() {
+				fl = append(fl, float64(10+k))
+			}
+		}
+		return geom.NewPolygon([]geom.LineString{geom.NewLineString(geom.NewSequence(fl, ct))})
+	}
+	var out []geom.Geometry
+	for _, n := range []int{33, 64, 65, 500} {
+		var ps []geom.Point
+		var gs []geom.Geometry
+		for i := 0; i < n; i++ {
+			if i == n/2 {
+				ps = append(ps, geom.NewEmptyPoint(ct))
+			}
+			ps = append(ps, pt(i))
+			gs = append(gs, pt(i).AsGeometry())
+		}
+		out = append(out, geom.NewMultiPoint(ps).AsGeometry(), geom.NewGeometryCollection(gs).AsGeometry())
+	}
+	var ls []geom.LineString
+	var pg []geom.Polygon
+	var nest []geom.Geometry
+	for i := 0; i < 40; i++ {
+		ls = append(ls, line(i))
+		pg = append(pg, sq(i))
+		nest = append(nest, geom.NewGeometryCollection([]geom.Geometry{pt(i).AsGeometry()}).AsGeometry())
+	}
+	out = append(out, geom.NewMultiLineString(ls).AsGeometry(), geom.NewMultiPolygon(pg).AsGeometry(), geom.NewGeometryCollection(nest).AsGeometry())
+	var head []geom.Geometry
+	var tail []geom.Point
+	for i := 0; i < 19; i++ {
+		head = append(head, pt(i).AsGeometry())
+	}
+	for i := 0; i < 20; i++ {
+		tail = append(tail, pt(40+i))
+	}
+	out = append(out, geom.NewGeometryCollection(append(head, geom.NewMultiPoint(tail).AsGeometry())).AsGeometry(),
+		geom.NewGeometryCollection(append([]geom.Geometry{geom.NewMultiPoint(tail).AsGeometry()}, head...)).AsGeometry())
+	return out
+}
+
 func (c shapeCase) build() (geom.Geometry, error) {
+	if c.Sup == "wide" {
+		ws := wideGeoms(geom.CoordinatesType(c.CT))
+		if c.Idx < 0 || c.Idx >= len(ws) {
+			return geom.Geometry{}, fmt.Errorf("wide index out of range")
+		}
+		return ws[c.Idx], nil
+	}
 	shapes := append(universe.Shapes(c.D, c.W), universe.ShortRingShapes()...)
 	if c.Idx < 0 || c.Idx >= len(shapes) {
 		return geom.Geometry{}, fmt.Errorf("shape index out of range")
@@ -299,6 +379,20 @@ func c04Main(r *engine.Run) {
 			}
 		}
 	})
+	for _, ct := range allCT {
+		ws := wideGeoms(ct)
+		r.States.Add(int64(len(ws)))
+		for i, g := range ws {
+			c := shapeCase{Idx: i, Shape: fmt.Sprintf("wide #%d (%s, %d members)", i, g.Type(), len(members(g))), CT: int(ct), Sup: "wide"}
+			if p := engine.SafeCall(func() {
+				c04One(r, g, c, 0, 1)
+				c04Scan(r, g, c)
+			}); p != nil {
+				r.Violation("C04/panic", "shape", c, fmt.Sprint(p))
+			}
+		}
+	}
+	r.Bound("wide collections: 33 / 64 / 65 / 500 direct members (MultiPoint with an empty member in the middle, GeometryCollection), 40-member MultiLineString / MultiPolygon / collection of collections, a collection whose last (first) member is a 20-point MultiPoint × 4 ctypes")
 	if done {
 		r.Bound(fmt.Sprintf("S(%d,%d) = %d shapes × 4 ctypes × %d float rotations × byte-order vectors (all 2^e for e ≤ %d elements, else ≤ %d deviations from all-LE/all-BE) × 3 trailers; Scan/Value on every shape", d, w, len(shapes), len(offs), full, maxDev))
 	}
@@ -314,7 +408,7 @@ func c04Replay(r *engine.Run, sub string, raw json.RawMessage) error {
 		return err
 	}
 	c04One(r, g, c, 8, 2)
-	if c.Sup == "cell" {
+	if c.Sup == "cell" || c.Sup == "wide" {
 		c04Scan(r, g, c)
 	}
 	return nil
